@@ -114,6 +114,10 @@ def bounded(ctx, b):
     sets.append(("blank_captions", CaptionSet({"en": CaptionList([
         Caption(0, 10 ** 6, [T("\u00a0")]), Caption(10 ** 6, 2 * 10 ** 6, [T("  ")]), Caption(2 * 10 ** 6, 3 * 10 ** 6, [BR()]),
         Caption(3 * 10 ** 6, 4 * 10 ** 6, [T(""), BR(), T("")]), Caption(4 * 10 ** 6, 5 * 10 ** 6, [T("x")])])})))
+    # caption styles that name a region of their own (as a converter that keeps foreign attributes would leave them)
+    sets.append(("styles_with_a_region_key", CaptionSet({"en": CaptionList([
+        Caption(0, 10 ** 6, [T("x")], style={"color": "yellow", "region": "top"}),
+        Caption(10 ** 6, 2 * 10 ** 6, [T("y")], style={"region": "r9", "class": "k"})])}, styles={"k": {"color": "red"}})))
     lv = Layout(alignment=Alignment(None, VA.CENTER))
     lh = Layout(alignment=Alignment(HA.CENTER, None))
     sets.append(("one_component_alignments", CaptionSet({"en": CaptionList([
@@ -139,7 +143,7 @@ def bounded(ctx, b):
                         # one failure per problem, so that a known finding never hides a different one
                         for k, prob in enumerate(detail["reference_problems"]):
                             b.case((name, W.__name__, str(opts), force, "problem", k), False,
-                                   {"writer": W.__name__, "options": opts, "force": force, "problem": prob, "doc": doc[:1200]},
+                                   {"writer": W.__name__, "options": opts, "force": force, "problem": prob, "p_elements": doc.count("<p "), "doc": doc[:1200]},
                                    sample={"set": name, "writer": W.__name__, "options": opts, "force": force, "problem": prob})
                         return True, None
                     if not ok:
